@@ -57,7 +57,7 @@ static const row ROWS[] = {
 	{ "X4G0X4",      IN_RANDOM,  8,   2,  2,  0, 0,  0, 0,    0, 0, 0, 0 },
 	{ "X4G0X4",      IN_RANDOM,  12,  2,  2,  0, 0,  0, 0,    1, 0, 0, 1 },
 	{ "K1X4",        IN_TEXT,    8,   4,  2,  0, 0,  0, 0,    1, 0, 0, 0 },	// first / second / third worker cannot be created
-	{ "K2X4",        IN_TEXT,    12,  4,  3,  0, 0,  0, 0,    1, 0, 0, 0 },
+	{ "K2X4",        IN_TEXT,    12,  4,  3,  0, 0,  0, 0,    0, 0, 0, 0 },
 	{ "K3X4",        IN_TEXT,    12,  4,  3,  0, 3,  0, 0,    0, 0, 0, 0 },
 	{ "R4X4",        IN_TEXT,    3,   4,  2,  0, 0,  0, 0,    2, 0, 0, 0 },	// every byte handed over with LZMA_RUN (the Block is not full, its worker waits for more), then the closing action WITHOUT new input: only the state changes
 	{ "R4F4X4",      IN_TEXT,    6,   4,  2,  0, 0,  0, 0,    1, 0, 0, 0 },
@@ -66,7 +66,7 @@ static const row ROWS[] = {
 	{ "P4O0X4",      IN_TEXT,    12,  4,  3,  0, 0,  0, 0,    1, 0, 0, 0 },	// three Blocks queued (only the Stream Header could be written), then re-init with one thread: more buffers in the queue than the new limit
 	{ "P4O0X4",      IN_TEXT,    16,  4,  3,  0, 0,  0, 0,    0, 0, 0, 0 },
 	{ "E4",          IN_TEXT,    8,   4,  2,  0, 0,  0, 0,    2, 0, 0, 0 },	// every worker fails: the error must reach the caller (no wait for output that never comes)
-	{ "E4",          IN_TEXT,    12,  4,  3,  0, 0,  0, 0,    1, 0, 0, 0 },
+	{ "E4",          IN_TEXT,    12,  4,  3,  0, 0,  0, 0,    0, 0, 0, 0 },
 	{ "E4",          IN_TEXT,    8,   4,  2,  1, 1,  0, 0,    1, 1, 0, 0 },
 	{ "E4",          IN_TEXT,    4,   4,  1,  0, 0,  2, 0,    2, 0, 0, 0 },
 	{ "X4",          IN_TEXT,    8,   4,  2,  0, 0,  0, -1,   1, 0, 0, 0 },	// early lzma_end after call k for every k
